@@ -12,7 +12,11 @@ def families(prog):
                     continue
                 for (f, n) in sites:
                     # group by installing function and by the statement block (same CompoundStmt parent)
-                    par = f.parent.get(n['id'])
+                    par = None
+                    for a in f.ancestors(n):
+                        if a['k'] == 'CompoundStmt':
+                            par = a['id']
+                            break
                     fams.setdefault((kind, f.name, par), {})[T] = tgt
     return [(k[0], k[1], v) for k, v in fams.items() if len(v) == 4]
 
